@@ -22,7 +22,7 @@ PROPS = {
             "explanation": "bounded: provider operation sequences against a reference tree, hash law per size class, identity check"},
     "C17": {"level": "proof", "lemma_files": ENGINE + ["contracts/state_index.py"], "conformance": []},
     "C18": {"level": "proof", "lemma_files": ENGINE, "conformance": []},
-    "C19": {"level": "exploration", "lemma_files": [], "conformance": [], "bounded": ["contracts.bounded_cache.run"],
+    "C19": {"level": "exploration", "lemma_files": ["contracts/cache_laws.py"], "conformance": [], "bounded": ["contracts.bounded_cache.run"],
             "explanation": "bounded: cache operation sequences, coherence invariant after every call"},
     "C20": {"level": "proof", "lemma_files": ["contracts/smart_laws.py"], "conformance": []},
 }
